@@ -131,8 +131,8 @@ Skel(j, K1, K2, Tm, Ts) ==
                    \o << Bz("sr") >> \o Approve \o << Lab("sr"), Op("retsub") >>    \* callee approves internally
       [] j = 17 -> << B("main"), Lab("sa") >> \o K1 \o << IntC(1), Op("retsub") >> \o Ts \o << Lab("main"), Callsub("sa") >>  \* callsub is the last instruction
       [] j = 18 -> << B("main"), Lab("sa") >> \o K1 \o << Op("retsub") >> \o Ts \o << Lab("main"), Callsub("sa") >> \o Approve \o Tm  \* subroutine before main
-      [] j = 19 -> << Txn("FirstValid"), Switch(<< "swa", "swb" >>) >> \o K1 \o Approve \o << Lab("swa") >> \o K2 \o Approve
-                   \o << Lab("swb") >> \o Approve \o Tm                             \* switch arms
+      [] j = 19 -> << Txn("FirstValid"), Switch(<< "swa", "swb", "swa" >>) >> \o K1 \o Approve \o << Lab("swa") >> \o K2 \o Approve
+                   \o << Lab("swb") >> \o Approve \o Tm                             \* switch arms (one label named twice)
       [] j = 20 -> FreeCond(1) \o << Bz("p2") >> \o K1 \o << Callsub("sa") >> \o Approve \o << Lab("p2") >> \o K2
                    \o << Callsub("sa") >> \o Approve \o Tm \o << Lab("sa") >> \o Filler \o << Op("retsub") >>  \* two call sites, one check each
       [] j = 21 -> << Callsub("sa") >> \o Approve \o Tm \o << Lab("sa") >> \o FreeCond(2) \o << Bz("sr") >> \o K1
@@ -357,6 +357,9 @@ F3Random(k) == F3Case("f3", k, [i \in 1..Len(F3Radix) |-> Rnd(k, 3, i, F3Radix[i
 F3SentinelDigits ==
     { << f, kd, ix, 0, 0, 0, g, 0, 0, 0, 0 >> : f \in 0..2, kd \in 0..9, ix \in 0..1, g \in 0..5 }
     \cup { << 1, kd, 0, 3, s, 1, g, 0, 0, 0, 0 >> : kd \in 0..9, s \in 0..1, g \in {0, 4} }
+    \* another member's RekeyTo checked after a call whose callee may approve by itself (skeleton 16): not every
+    \* accepting exit of such a checker has seen the check
+    \cup { << 0, kd, 1, 0, 0, 0, 0, 0, 15, 0, 0 >> : kd \in {0, 3} }
     \* an application that checks another member's OnCompletion / Sender
     \cup { << f, kd, 0, 0, 0, 0, 0, 0, 0, 0, 1 >> : f \in {4, 5}, kd \in 0..1 }
     \* absolute-index reads only inside a loop body / only in a callee (group-size-check)
